@@ -2341,4 +2341,97 @@ def demoStopped : List Choice :=
 example : (runChoices P0 {} demoStopped).map (fun s => (s.g.accepted, s.g.aborted, s.g.attempts, s.g.orig)) =
     some (true, false, [[1, 2]], [1, 2]) := by rfl
 
+/-! ## the retry schedule: a stored message is due within the configured schedule (round 10)
+
+`retryDelay` / `retryDue` / `restartDue` (Model/SpoolFS.lean) mirror the arithmetic of `tryDelivery` and `readDiskQueue`.
+The monitor's rule (`C02/retry-never-due`: no slot of the real time wheel is due beyond the horizon of the configured
+schedule) is the conclusion of `C02_restart_due_within_horizon` / `C02_retry_due_within_horizon`. -/
+
+/-- A value that fits into 64 bits is its own wrap-around (no overflow: the product is the exact one). -/
+theorem C02_wrap64_id (x : Int) (h1 : -two63 ≤ x) (h2 : x < two63) : wrap64 x = x := by
+  unfold wrap64 two63 two64 at *
+  omega
+
+/-- The wrapped value always fits into 64 bits. -/
+theorem C02_wrap64_range (x : Int) : -two63 ≤ wrap64 x ∧ wrap64 x < two63 := by
+  unfold wrap64 two63 two64
+  omega
+
+/-- Scale 1 (the configuration of the repo's tests; also every `tries` with `⌊scale^(tries-1)⌋ = 1`, e.g. 1.25 up to the
+fourth attempt): the delay is `initial_retry_time`. -/
+theorem C02_retry_delay_scale_one (init : Int) (h0 : 0 ≤ init) (h1 : init < two63) : retryDelay init 1 = init := by
+  unfold retryDelay
+  rw [Int.mul_one]
+  exact C02_wrap64_id init (by unfold two63 at *; omega) h1
+
+/-- `readDiskQueue` never schedules a stored message before `now + postInitDelay` … -/
+theorem C02_restart_due_not_before_post (now last delay post : Int) :
+    now + post ≤ restartDue now last delay post := by
+  unfold restartDue
+  split <;> omega
+
+/-- … and, whatever the delay formula produced (`delay` is ANY integer not larger than the longest delay `D` of the
+configured schedule — wrapped, negative, zero), a message whose last attempt is not in the future is due within
+`max post D` of the restart: it IS attempted again. -/
+theorem C02_restart_due_within_horizon (now last delay post D H : Int)
+    (hl : last ≤ now) (hd : delay ≤ D) (hp : post ≤ H) (hD : D ≤ H) :
+    restartDue now last delay post ≤ now + H := by
+  unfold restartDue
+  split <;> omega
+
+/-- `tryDelivery`: the next attempt is due within the longest delay of the schedule. -/
+theorem C02_retry_due_within_horizon (now delay D : Int) (hd : delay ≤ D) : retryDue now delay ≤ now + D := by
+  unfold retryDue
+  omega
+
+/-- A delay that is not positive (what the wrapped product is for the sentinel, see below) means: due right after the
+post-init delay. -/
+theorem C02_restart_due_nonpositive_delay (now last delay post : Int)
+    (hl : last ≤ now) (hd : delay ≤ 0) (hp : 0 ≤ post) :
+    restartDue now last delay post = now + post := by
+  unfold restartDue
+  split
+  · rfl
+  · omega
+
+/-- The message that had no recorded attempt when the process stopped (empty `TriesCount`: `readDiskQueue` feeds the
+sentinel 999999 into the formula; with a scale > 1 the power is +Inf).  On amd64 the conversion of +Inf is `-2^63`:
+for EVERY `initial_retry_time` the wrapped product is `0` or `-2^63`, never positive. -/
+theorem C02_no_attempt_yet_delay_amd64 (init : Int) : retryDelay init (-two63) ≤ 0 := by
+  unfold retryDelay wrap64 two63 two64
+  omega
+
+/-- Where the conversion saturates (`2^63-1`) the same holds for every EVEN `initial_retry_time` (any whole number of
+microseconds, so everything a configuration file can say in `ms`/`s`/`m`/`h`). -/
+theorem C02_no_attempt_yet_delay_saturating_even (k : Int) (h0 : 0 ≤ k) (h1 : 2 * k < two63) :
+    retryDelay (2 * k) (two63 - 1) ≤ 0 := by
+  unfold retryDelay wrap64
+  have e : 2 * k * (two63 - 1) + two63 = (two63 - 2 * k) + k * two64 := by
+    unfold two63 two64
+    omega
+  rw [e, Int.add_mul_emod_self_right]
+  unfold two63 two64 at *
+  omega
+
+/-- Hence: a complete stored message without any recorded attempt is due right after the post-init delay of the
+restart, under EVERY retry schedule (on the platform of the check: any `init`; the scale only enters through `conv`). -/
+theorem C02_no_attempt_yet_due_at_once (now last init post : Int) (hl : last ≤ now) (hp : 0 ≤ post) :
+    restartDue now last (retryDelay init (-two63)) post = now + post :=
+  C02_restart_due_nonpositive_delay now last _ post hl (C02_no_attempt_yet_delay_amd64 init) hp
+
+/-- The arithmetic the code relies on is implementation-defined: with a saturating conversion and an ODD number of
+nanoseconds as `initial_retry_time` the wrapped product is a positive 292 years — the message would never be due.
+(Not reachable on the platform of the check; recorded because a "harmless" rewrite of the formula lands here.) -/
+theorem C02_no_attempt_yet_saturating_odd_never_due :
+    restartDue 0 0 (retryDelay 1 (two63 - 1)) 0 = two63 - 1 := by decide
+
+/-- A delay clamped to the largest duration (instead of wrapped) is NOT covered by `C02_restart_due_within_horizon`:
+the hypothesis `delay ≤ D` is what a schedule has to guarantee. -/
+example : restartDue 1700000000000000000 1700000000000000000 (two63 - 1) 0 = 1700000000000000000 + (two63 - 1) := by decide
+
+/-- Non-vacuity: 15 minutes, scale 1.25, third attempt (`⌊1.25^2⌋ = 1`), restart 10 s after the attempt with a post-init
+delay of 10 s: due 15 minutes after the attempt, inside the horizon. -/
+example : restartDue 10000000000 0 (retryDelay 900000000000 1) 10000000000 = 900000000000 ∧
+    restartDue 10000000000 0 (retryDelay 900000000000 1) 10000000000 ≤ 10000000000 + 900000000000 := by decide
+
 end MaddyVerif.C02
